@@ -52,23 +52,8 @@ func C06(p *core.Program, r *core.Report) {
 	r.Explanation = "U1 (field-initialisation completeness): every webdoc element type with a PageURL field gets it assigned at every construction site (for Text: on the only path from TextBuilder.Build to the document, in flushBlock) from a *url.URL that is not nil. U2 (absolutise before serialise): in every GenerateOutput the serialised tree was, as the same SSA value, passed through the absolutiser(s) of its kind with the element's own PageURL on every path - or comes from a helper/field that always does so. U2 for Video includes srcset (a <source> may carry it). U3: the absolutisers cover a[href], area[href], video[poster], img|source|track|video[src] and [srcset] (constant extraction) and CreateAbsoluteURL's decision list is the documented one (pass-through for empty, no base, #, data:, javascript:, already absolute, unparseable; otherwise resolve against the base); every test and every outcome is on the value with the surrounding white space removed, strings.TrimSpace of the parameter - blanks around an attribute value are not part of the reference). U4: ContentImages are read from the same processed clones that are serialised, and the srcset writer and reader tokenise with the same regular expression. U5: the URL object used as base is never written (effect analysis). U6: Apply hands Options.OriginalURL itself, on every path, to the content extractor. U4 also: the compiled srcset pattern yields exactly the candidate URLs of fixed srcset values (density, width, width plus height descriptors, commas inside URLs). U7: ApplyForURL resolves against the supplied string parsed by url.Parse with no part rewritten (shared with C13-L7)."
 	r.NotCovered = "RFC 3986 resolution itself (net/url), what the srcset regular expression matches, images inside Text elements (not produced by this port)."
 
-	// ---- U6: the base is the page URL the caller supplied: Apply hands Options.OriginalURL
-	// itself - unconditionally - to the content extractor (which passes it to every element kind)
-	if ap := mustInl(p, r, "U6", core.ModPath+".Apply"); ap != nil {
-		cn := core.NewCanon(p)
-		n, bad := 0, ""
-		for _, call := range core.Calls(ap, func(ci ssa.CallInstruction) bool { return core.IsCallTo(ci, extractorPkg+".NewContentExtractor") }) {
-			n++
-			for _, a := range call.Common().Args {
-				if nm := core.NamedOf(a.Type()); nm != nil && nm.Obj().Name() == "URL" {
-					if u := cn.Of(a); !strings.HasSuffix(u, ".OriginalURL") || !strings.Contains(u, "$1") {
-						bad = u
-					}
-				}
-			}
-		}
-		r.Add("U6", "the content extractor is given the caller's page URL itself", p.Pos(ap.Pos()), n == 1 && bad == "", fmt.Sprintf("%d NewContentExtractor calls; other URL: %s", n, shortVal(bad)))
-	}
+	// ---- U6: the base is the page URL the caller supplied
+	checkExtractorGetsCallerURL(p, r, "U6")
 
 	// ---- U1
 	for _, tn := range []string{"Image", "Table", "Video"} {
@@ -603,4 +588,26 @@ func fieldSetBefore(fn *ssa.Function, obj ssa.Value, at ssa.Instruction, field s
 		return false, append(w, "the object is filled from a value that is not a copy of another object")
 	}
 	return fieldSetBefore(fn, load.X, load, field, accept, depth+1)
+}
+
+// checkExtractorGetsCallerURL (C06-U6, shared as C19-H11): Apply hands Options.OriginalURL
+// itself - unconditionally - to the content extractor, which passes it to every element kind and
+// to the embed extractors: relative references (frame sources included) are resolved against
+// the page URL the caller supplied, or not at all, never against an address found in the page.
+func checkExtractorGetsCallerURL(p *core.Program, r *core.Report, rule string) {
+	if ap := mustInl(p, r, rule, core.ModPath+".Apply"); ap != nil {
+		cn := core.NewCanon(p)
+		n, bad := 0, ""
+		for _, call := range core.Calls(ap, func(ci ssa.CallInstruction) bool { return core.IsCallTo(ci, extractorPkg+".NewContentExtractor") }) {
+			n++
+			for _, a := range call.Common().Args {
+				if nm := core.NamedOf(a.Type()); nm != nil && nm.Obj().Name() == "URL" {
+					if u := cn.Of(a); !strings.HasSuffix(u, ".OriginalURL") || !strings.Contains(u, "$1") {
+						bad = u
+					}
+				}
+			}
+		}
+		r.Add(rule, "the content extractor is given the caller's page URL itself", p.Pos(ap.Pos()), n == 1 && bad == "", fmt.Sprintf("%d NewContentExtractor calls; other URL: %s", n, shortVal(bad)))
+	}
 }
